@@ -472,6 +472,10 @@ def reconcile_cases(rng, n):
             continue    # kept by the tolerance but outside the interval: measures undefined
         meas = rng.choice(['isi', 'spike', 'sync', 'order', 'dir'])
         mrts, ri, mt = random_kw(rng, te - ts, meas)
+        # the sync filter reconciles by default like every measure
+        thr = rng.choice([Fr(0), Fr(1, 4), Fr(1, 2), Fr(3, 4)])
+        fm, _, fmt = random_kw(rng, te - ts, 'filter')
+        yield 'filter_by_sync', [kw_field(fm, 0, fmt, 1, None, [thr]), idx_field(None)] + tfs, ['disordered', 'filter']
         for op in MULTI_OPS[meas]:
             extra = [rng.choice([0, 1])] if op == 'dir_matrix' else []
             yield op, [kw_field(mrts, ri, mt, 1, None, extra), idx_field(None)] + tfs, ['disordered', 'api-' + meas]
